@@ -497,7 +497,8 @@ def race_stage(mod, seed):
     reports = [r for r in p.stderr.split("==================") if "WARNING: DATA RACE" in r]
     # D8 (property C13, its own fix): Queue.Distributor wires `size: q.tracker.len`, an unlocked read of the
     # tracker that Broker.Stats reaches through Distributor.Len — not a broker defect, not judged here
-    d8 = [r for r in reports if "TrackerImpl).len()" in r and "Distributor" in r and ".Len()" in r]
+    d8_unrepaired = "q.tracker.len" in open(os.path.join(C.REPO, "pubsub", "queue.go")).read()
+    d8 = [r for r in reports if d8_unrepaired and "TrackerImpl).len()" in r and "Distributor" in r and ".Len()" in r]
     other = [r for r in reports if r not in d8]
     n = len(other)
     print(f"{mod.PROP}: -race stage: {len(cases)} scenarios, {n} data race report(s)"
